@@ -9,10 +9,10 @@
 //	    uploads the planned permanode <key> (its ref must be <refhex>), then the claims
 //	    set dateCreated=<dc> (if any), add tag=a / tag=b (tags ∈ -,a,b,ab), add extra=x<i> …,
 //	    the i-th claim dated d_i (attribute claims before 2020-09-13).  Answer: "ok <anytime|none> <modtime|none>" as the corpus reports them.
-//	q <c|m> <all|a|b> <limit> <continuehex|->
-//	    Query{Permanode constraint, Sort: CreatedDesc|LastModifiedDesc, Limit, Continue}
-//	    Answer: "ok <i,j,…|-> <continuehex|->" (indices in pn order, "?" for an unknown ref) or "err".
-//	ar <c|m> <all|a|b> <limit> <pivothex> [<continuehex>]
+//	q <c|m|C|r> <all|a|b> <limit> <continuehex|->
+//	    Query{Permanode constraint, Sort: CreatedDesc|LastModifiedDesc|CreatedAsc|BlobRefAsc, Limit, Continue}
+//	    Answer: "ok <i,j,…|-> <continuehex|->" (indices in pn order, "?" for an unknown ref), "err" or "panic".
+//	ar <c|m|C|r> <all|a|b> <limit> <pivothex> [<continuehex>]
 //	    the same with Around=<pivot> (and no continue token unless given).
 package c09
 
@@ -215,6 +215,10 @@ func (w *world) query(words []string) string {
 		q.Sort = search.CreatedDesc
 	case "m":
 		q.Sort = search.LastModifiedDesc
+	case "C":
+		q.Sort = search.CreatedAsc // unsorted candidate source, sorted afterwards
+	case "r":
+		q.Sort = search.BlobRefAsc // the same
 	default:
 		return "bad-op"
 	}
